@@ -47,6 +47,8 @@ package ship
 //@ func (c *ShipConnection).processShipJsonMessage(message, target) inline
 //@ func (c *ShipConnection).hasSpineDatagram(message) inline
 //@ func (c *ShipConnection).protocolHandshake() inline
+//@ func (c *ShipConnection).setClosing() inline
+//@ func (c *ShipConnection).isClosing() inline
 
 // ---- library-like helpers (reflection based): contract assumed, listed as trusted ----
 // JsonFromEEBUSJson handles peer-controlled bytes: its body is under the safety sweep (C08); what it computes is a
@@ -95,9 +97,9 @@ package ship
 //@ writers [C14] ShipConnection.handshakeTimerRunning in (*ship.ShipConnection).setHandshakeTimer, (*ship.ShipConnection).stopHandshakeTimer, (*ship.ShipConnection).handshakeTimerExpired, (*ship.ShipConnection).setHandshakeTimerRunning
 
 // ---- everything a handshake step may touch ----
-//@ modset hs(c) := $decoded, Reader.$delivLen, Reader.$deliv, c.smeState, c.smeError, c.handshakeTimerRunning, c.handshakeTimerType, c.handshakeTimerStopChan, c.lastReceivedWaitingValue, c.remoteShipID, c.dataReader, c.spineBuffer, c.shutdownOnce.$done, $Trusted[norm(c.remoteSKI)], c.$reports, c.$schedReports, c.$setup, $idReports[c.remoteSKI], $lastId[c.remoteSKI], c.$closeCalled, c.$closeScheduled, c.$everApproved, c.dataWriter.$wsClosed, c.dataWriter.$writes
+//@ modset hs(c) := $decoded, Reader.$delivLen, Reader.$deliv, c.closing, c.smeState, c.smeError, c.handshakeTimerRunning, c.handshakeTimerType, c.handshakeTimerStopChan, c.lastReceivedWaitingValue, c.remoteShipID, c.dataReader, c.spineBuffer, c.shutdownOnce.$done, $Trusted[norm(c.remoteSKI)], c.$reports, c.$schedReports, c.$setup, $idReports[c.remoteSKI], $lastId[c.remoteSKI], c.$closeCalled, c.$closeScheduled, c.$everApproved, c.dataWriter.$wsClosed, c.dataWriter.$writes
 //@ modset er(c) := @cl(c), c.smeState, c.smeError, c.handshakeTimerType, c.handshakeTimerStopChan, $Trusted[norm(c.remoteSKI)]
-//@ modset cl(c) := c.handshakeTimerRunning, c.shutdownOnce.$done, c.$reports, c.$schedReports, c.$closeCalled, c.$closeScheduled, c.dataWriter.$wsClosed, c.dataWriter.$writes
+//@ modset cl(c) := c.handshakeTimerRunning, c.closing, c.shutdownOnce.$done, c.$reports, c.$schedReports, c.$closeCalled, c.$closeScheduled, c.dataWriter.$wsClosed, c.dataWriter.$writes
 
 // object invariant: the state is one the role can reach from INIT_START along diagram edges
 //@ pred roleOK(r string, s int) := reach(r, model.CmiStateInitStart, s)
@@ -121,7 +123,11 @@ package ship
 //@ macro KEEPID(c) := c.$setup == old(c.$setup) && $idReports[c.remoteSKI] == old($idReports[c.remoteSKI]) && $lastId[c.remoteSKI] == old($lastId[c.remoteSKI]) && c.remoteShipID == old(c.remoteShipID)
 // connection end accounting (C11-F1): HandleConnectionClosed is called or scheduled exactly once, by the Once
 //@ macro REP(c) := (c.$reports + c.$schedReports)
-//@ macro F1STEP(c) := (@REP(c) == old(@REP(c)) + ite(c.shutdownOnce.$done && !old(c.shutdownOnce.$done), 1, 0) && (old(c.shutdownOnce.$done) ==> c.shutdownOnce.$done))
+// (the closing mark is set at the start of CloseConnection's Once body and stays: between calls it equals "closed";
+// while it is set and the Once has not finished - i.e. inside the body - nothing closes or reports again: F1-no-reentry)
+//@ macro F1STEP(c) := (@REP(c) == old(@REP(c)) + ite(c.shutdownOnce.$done && !old(c.shutdownOnce.$done), 1, 0) && (old(c.shutdownOnce.$done) ==> c.shutdownOnce.$done) && (old(c.closing) == old(c.shutdownOnce.$done) ==> c.closing == c.shutdownOnce.$done))
+//@ macro NOREENTRY(c) := (old(c.closing) && !old(c.shutdownOnce.$done) ==> !c.shutdownOnce.$done && c.closing && @REP(c) == old(@REP(c)) && c.$closeScheduled == old(c.$closeScheduled) && c.handshakeTimerRunning == old(c.handshakeTimerRunning))
+//@ objinv (c *ShipConnection) [C11] F1-closing-mark: c.closing == c.shutdownOnce.$done
 //@ objinv (c *ShipConnection) [C11] F1-once: @REP(c) == ite(c.shutdownOnce.$done, 1, 0)
 // SPINE delivery (C06): payloads that arrive before completion wait in spineBuffer, in arrival order; once a
 // data reader is installed the buffer is empty and stays empty, so later payloads cannot overtake earlier ones
@@ -143,6 +149,7 @@ package ship
 //@   ensures c.shutdownOnce.$done == old(c.shutdownOnce.$done) ==> c.handshakeTimerRunning == old(c.handshakeTimerRunning)
 //@   ensures c.$closeScheduled == old(c.$closeScheduled)
 //@   ensures !old(c.dataWriter.$wsClosed) ==> c.shutdownOnce.$done == old(c.shutdownOnce.$done)
+//@   ensures [C11] F1-no-reentry: @NOREENTRY(c)
 //@   ensures [C11] F1-step: @F1STEP(c)
 //@   modifies @cl(c)
 //@ func (c *ShipConnection).sendShipModel(typ, payload) [C04]
@@ -153,6 +160,7 @@ package ship
 //@   ensures c.shutdownOnce.$done == old(c.shutdownOnce.$done) ==> c.handshakeTimerRunning == old(c.handshakeTimerRunning)
 //@   ensures c.$closeScheduled == old(c.$closeScheduled)
 //@   ensures !old(c.dataWriter.$wsClosed) ==> c.shutdownOnce.$done == old(c.shutdownOnce.$done)
+//@   ensures [C11] F1-no-reentry: @NOREENTRY(c)
 //@   ensures [C11] F1-step: @F1STEP(c)
 //@   modifies @cl(c)
 //@ func (c *ShipConnection).handshakeHelloSend(phase, waitingDuration, prolongation) [C04]
@@ -167,11 +175,10 @@ package ship
 //@   modifies @cl(c)
 
 // ---- closing ----
-// Assume/guarantee: a transport that closed by itself has been reported (ReportConnectionError ->
-// CloseConnection) before any other entry runs, so a graceful close of a completed connection finds the
-// transport open (otherwise the announce send would re-enter the sync.Once: see DESIGN.md, observations).
+// No assumption about the transport: a graceful close may find it already closed by the peer (the websocket layer's
+// report still on its way). The announce send then fails without closing again (F1-no-reentry), and the end of the
+// connection is reported by the scheduled part as usual.
 //@ func (c *ShipConnection).CloseConnection(safe, code, reason) entry [C04,C11]
-//@   requires safe && c.smeState == model.SmeStateComplete && !c.shutdownOnce.$done ==> !c.dataWriter.$wsClosed
 //@   ensures c.smeState == old(c.smeState)
 //@   ensures c.shutdownOnce.$done
 //@   ensures !old(c.shutdownOnce.$done) ==> !c.handshakeTimerRunning
@@ -613,11 +620,11 @@ package ship
 //@   ensures result != nil && result.role == role && result.remoteSKI == remoteSki && result.remoteShipID == remoteShipId && result.localShipID == localShipID
 //@   ensures result.infoProvider == dataProvider && result.dataWriter == dataHandler
 //@   ensures [C04] N1-start: result.smeState == model.CmiStateInitStart && !result.handshakeTimerRunning && result.dataReader == nil
-//@   ensures [C11] N2-open: !result.shutdownOnce.$done && @REP(result) == 0 && !result.$closeScheduled
+//@   ensures [C11] N2-open: !result.shutdownOnce.$done && !result.closing && @REP(result) == 0 && !result.$closeScheduled
 //@   establishes result
 
 // ======================= lock discipline (C20) =======================
-//@ guarded ShipConnection.smeState, ShipConnection.smeError by ShipConnection.mux
+//@ guarded ShipConnection.smeState, ShipConnection.smeError, ShipConnection.closing by ShipConnection.mux
 //@ guarded ShipConnection.handshakeTimerRunning, ShipConnection.handshakeTimerType, ShipConnection.handshakeTimerStopChan by ShipConnection.handshakeTimerMux
 //@ guarded ShipConnection.spineBuffer by ShipConnection.bufferMux
 // the timer stop channels are never closed (checked over the whole module), so the non-blocking stop send cannot panic
